@@ -286,6 +286,38 @@ def real_part(ctx, quick):
         if p.returncode != 0 or lost:
             problems.append((case, "exit 0, output of a, b and c", "exit %s, output missing for %s" % (p.returncode, ",".join(lost) or "-"),
                              "a single ^C without -b harmed the run: exit %s, no output from %s; pdsh said %r" % (p.returncode, ",".join(lost) or "-", er[-200:])))
+    # the prompt loop (commands read from standard input): one interrupt to the process group while a command runs - also right
+    # after the loop has forked the process that runs it - only lists; the command and the ones after it complete
+    fshim = os.path.join(ctx.scratch, "slowfork.so")
+    frc, _ = vlib.sh(["gcc", "-shared", "-fPIC", "-O1", os.path.join(vlib.VERIF, "harness", "slowfork.c"), "-ldl", "-o", fshim])
+    for rep, env in enumerate([{}] + ([{"LD_PRELOAD": fshim, "SLOWFORK_AFTER_MS": "1000"}] if frc == 0 else [])):
+        e = {"PATH": "/usr/bin:/bin", "HOME": "/root", "LANG": "C"}
+        e.update(env)
+        p = subprocess.Popen([exe, "-R", "exec", "-w", "a,b"], env=e, stdin=subprocess.PIPE, stdout=subprocess.PIPE, stderr=subprocess.PIPE,
+                             start_new_session=True, preexec_fn=dfl)
+        try:
+            p.stdin.write(b"sleep 2; echo done-%h\necho second-%h\n"); p.stdin.close()
+        except OSError:
+            pass
+        time.sleep(0.5)
+        try:
+            os.killpg(p.pid, signal.SIGINT)
+        except OSError:
+            pass
+        nruns += 1
+        case = {"transport": "exec", "mode": "prompt loop", "hosts": "a,b", "situation": "one interrupt to the process group 0.5 s after the first command was entered" +
+                (" (the loop lingers 1 s after each fork)" if env else "")}
+        try:
+            p.stdin = None
+            o, er = p.communicate(timeout=30)
+        except subprocess.TimeoutExpired:
+            p.kill(); p.communicate()
+            problems.append((case, "normal end", "still running 30 s later", "the prompt loop does not end after a single ^C")); continue
+        want = [b"a: done-a", b"b: done-b", b"a: second-a", b"b: second-b"]
+        lost = [w.decode() for w in want if w not in o]
+        if p.returncode != 0 or lost:
+            problems.append((case, "exit 0, both commands run on both hosts", "exit %s, missing %s" % (p.returncode, lost),
+                             "a single ^C harmed a prompt-loop session: exit %s, missing output %s; stderr %r" % (p.returncode, lost, er[-200:])))
     return nruns, problems
 
 
@@ -314,7 +346,11 @@ def run(ctx):
         n, f, batch, tconn, behs, hosts, sigs = scenario(r)
         ptick = r.choice([0, 5, 15])
         args = ["-R", "sim", "-f", str(f), "-t", str(tconn)] + (["-b"] if batch else []) + ["-w", "h[0-%d]" % (n - 1), "cmd"]
-        ru = eng.run(args, hosts, seed=r.next() % (1 << 31), spur=r.choice([0, 0, 1]), sigs=sigs, ptick=ptick, env={"SCHED_MAXSTEP": "30000"}, timeout=10)
+        # one run in four: the sigwait() that follows a delivered signal fails once with EINTR (the handler must not act on it)
+        senv = {"SCHED_MAXSTEP": "30000"}
+        if k % 4 == 3:
+            senv["SCHED_SIGEINTR"] = "1"
+        ru = eng.run(args, hosts, seed=r.next() % (1 << 31), spur=r.choice([0, 0, 1]), sigs=sigs, ptick=ptick, env=senv, timeout=10)
         runs.append((ru, n, f, batch, tconn, behs, hosts, sigs, ptick))
         if judge(ru, n, f, batch, tconn, behs, hosts):
             early_bad += 1
@@ -353,7 +389,7 @@ def run(ctx):
         dist["lists"] += max(0, toks.count("SL1") - toks.count("XS"))
         e = judge(ru, n, f, batch, tconn, behs, hosts)
         rec = {"n": n, "f": f, "batch": batch, "tconn": tconn, "behs": behs, "args": ru.args, "hosts": ru.hosts, "seed": ru.seed, "spur": ru.spur,
-               "sigs": sigs, "ptick": ptick, "schedule": [c for c in ru.choices if c != "sig"]}
+               "sigs": sigs, "ptick": ptick, "schedule": [c for c in ru.choices if c != "sig"], "engine_env": getattr(ru, "env", {})}
         if e:
             bad += 1
             nsched += 1
@@ -393,7 +429,7 @@ def replay(ctx, path):
     c = rec["case"]
     ctx.gen_params()
     eng = schedeng.Sched(ctx)
-    ru = eng.run(c["args"], [tuple(h) for h in c["hosts"]], seed=c["seed"], spur=c["spur"], sigs=c["sigs"], replay=c["schedule"], ptick=c.get("ptick", 5))
+    ru = eng.run(c["args"], [tuple(h) for h in c["hosts"]], seed=c["seed"], spur=c["spur"], sigs=c["sigs"], replay=c["schedule"], ptick=c.get("ptick", 5), env=c.get("engine_env") or None)
     print("\n".join(ru.lines[-80:]))
     print(ru.summary())
     return 0
